@@ -61,12 +61,23 @@ MAX_VIOL = 6
 MOVING = ("shuffle", "mbf", "split_labels", "split_pieces", "split_without_labels", "remove_samples", "concatenate",
           "remove_labels")
 
+# forms in which the constructor is handed its arrays (all ndarray forms it accepts; lists are refused by it)
+SAMPLE_DTYPES = dict(f8="float64", f4="float32", i8="int64", i4="int32", i2="int16")
+LABEL_FORMS = ("i8", "i4", "f8", "strided")
+LAYOUTS = ("C", "F", "cols", "rows", "rev")
+SHAPES = ("2d", "flat", "3d-last", "3d-mid")
+DEFAULT_FORM = ["f8", "C", "2d", "i8"]
+# float32 samples: "up to rounding" is rounding of the stored precision. eps(float32)/eps(float64) = 5.4e8; the float64
+# tolerance 1e-9 is 4.5e6 eps(float64), the float32 tolerance 1e-9*PREC_F4 = 1e-4 is 840 eps(float32)
+# (largest deviation seen on the unchanged tree: see max_revert_error_in_units_of_tolerance in the evidence)
+PREC_F4 = 1e5
+
 
 # ----------------------------------------------------------------------------------------------------------------
 # model
 # ----------------------------------------------------------------------------------------------------------------
 class Model:
-    __slots__ = ("cur", "orig", "lab", "scaled", "factor", "omin", "omax", "rng", "mag", "moved")
+    __slots__ = ("cur", "orig", "lab", "scaled", "factor", "omin", "omax", "rng", "mag", "moved", "prec", "sd")
 
     def __init__(self, np, cur, lab, dim):
         self.cur = np.array(cur, dtype=float).reshape(len(lab), dim)
@@ -79,6 +90,8 @@ class Model:
         self.rng = None             # ("fixed", lo, hi) | ("value", snapshot of the observed range) | None
         self.mag = float(np.max(np.abs(self.cur))) if self.cur.size else 0.0
         self.moved = False          # a sample-moving operation happened in the lineage while scaled
+        self.prec = 1.0             # rounding unit of the lineage relative to float64 (PREC_F4 once float32 samples were handed in)
+        self.sd = "f8"              # dtype tag of the sample array the lineage was created from (class counters only)
 
     @property
     def n(self):
@@ -89,14 +102,22 @@ class Model:
         c.orig = None if self.orig is None else self.orig[rows].copy()
         c.scaled, c.factor, c.rng, c.mag, c.moved = self.scaled, _cp(np, self.factor), self.rng, self.mag, self.moved
         c.omin, c.omax = _cp(np, self.omin), _cp(np, self.omax)
+        c.prec, c.sd = self.prec, self.sd
         return c
 
     def tol(self):
-        return 1e-9 * max(1.0, self.mag)
+        return 1e-9 * self.prec * max(1.0, self.mag)
 
 
 def _cp(np, a):
     return a.copy() if isinstance(a, np.ndarray) else a
+
+
+def _fresh(np, a):
+    """a private copy of an argument in the same form (a strided vector stays a strided view of a fresh buffer)"""
+    if isinstance(a, np.ndarray) and not a.flags.c_contiguous:
+        return np.repeat(a, 2)[::2]
+    return _cp(np, a)
 
 
 class Entry:
@@ -233,7 +254,7 @@ def attr_diffs(np, obj, m):
                 res.append((name, "unscaled DataSet has %s=%s, expected None" % (name, v)))
         return res
     f = obj.get_scaling_factor()
-    if f is None or not _vec_close(np, f, m.factor, d, 1e-9, 0.0):
+    if f is None or not _vec_close(np, f, m.factor, d, 1e-9 * m.prec, 0.0):
         res.append(("scaling_factor", "get_scaling_factor()=%s expected %s" % (f, m.factor)))
     for name, v, e in (("original_min", obj.get_original_min(), m.omin), ("original_max", obj.get_original_max(), m.omax)):
         if e is None:
@@ -444,9 +465,61 @@ class Machine:
                 e.m.moved = True
 
     # -- operations -----------------------------------------------------------------------------------------------
+    def materialise(self, X, labels, form, labelled=True):
+        """The arrays handed to the constructor for the (n,d) float64 table X and the label list, in the drawn form
+        [sample dtype, memory layout, shape, label form].  Returns (sample array, label array, the table as float64 AS STORED
+        in the sample array).  Every array is a private buffer of the harness (the constructor keeps the caller's buffer)."""
+        np = self.np
+        sd, layout, shape, lf = form
+        n, d = X.shape
+        dt = np.dtype(SAMPLE_DTYPES[sd])
+        Xt = X.astype(dt)
+        if dt.kind == "i" and not np.array_equal(Xt.astype(np.float64), X):
+            raise ValueError("case asks for an integer sample array but its coordinates are not whole numbers")
+        filler = 99                                  # what surrounds the samples in the base buffer of a strided view
+        if layout == "F":
+            A = np.asfortranarray(Xt)
+        elif layout == "cols":                       # every other column of a wider table
+            W = np.full((n, 2 * d), filler, dtype=dt)
+            W[:, ::2] = Xt
+            A = W[:, ::2]
+        elif layout == "rows":                       # every other row of a longer table
+            W = np.full((2 * n, d), filler, dtype=dt)
+            W[::2] = Xt
+            A = W[::2]
+        elif layout == "rev":                        # negative strides along both axes
+            A = np.ascontiguousarray(Xt[::-1, ::-1])[::-1, ::-1]
+        else:
+            A = np.ascontiguousarray(Xt)
+        if shape == "flat" and d == 1:               # d = 1 handed in as a vector of n numbers
+            A = A[:, 0]
+        elif shape == "3d-last":                     # each sample an array of shape (d, 1) / (1, d): the constructor flattens it
+            A = A[:, :, None]
+        elif shape == "3d-mid":
+            A = A[:, None, :]
+        else:
+            shape = "2d"
+        assert np.array_equal(np.asarray(A, dtype=np.float64).reshape(n, d), Xt.astype(np.float64))
+        lab = np.array(labels, dtype=np.int64)
+        if lf == "strided":
+            W = np.full(2 * n, 7, dtype=np.int64)
+            W[::2] = lab
+            y = W[::2]
+        else:
+            y = lab.astype(dict(i8=np.int64, i4=np.int32, f8=np.float64)[lf])
+        self.out.cls("create-samples:%s" % sd)
+        if layout != "C":
+            self.out.cls("create-layout:%s" % layout)
+        if shape != "2d":
+            self.out.cls("create-shape:%s" % shape)
+        if lf != "i8" and labelled:
+            self.out.cls("create-labels:%s" % lf)
+        return A, y, Xt.astype(np.float64)
+
     def op_create(self, op):
         np = self.np
-        _, mode, d, rows, labels = op
+        _, mode, d, rows, labels = op[:5]
+        form = list(op[5]) if len(op) > 5 else DEFAULT_FORM
         n = len(rows)
         if mode == "empty" or n == 0:
             obj = self.DataSet((np.array([]), np.array([])), print_level=100, log_level=100)
@@ -454,12 +527,16 @@ class Machine:
             self.out.cls("create-empty")
         else:
             X = np.array(rows, dtype=np.float64).reshape(n, d)
+            A, y, X = self.materialise(X, labels, form, labelled=(mode != "unlabelled"))
             if mode == "unlabelled":
-                obj = self.DataSet(X.copy(), print_level=100, log_level=100)
+                obj = self.DataSet(A, print_level=100, log_level=100)
                 labels = [-1] * n
             else:
-                obj = self.DataSet((X.copy(), np.array(labels, dtype=np.int64)), print_level=100, log_level=100)
+                obj = self.DataSet((A, y), print_level=100, log_level=100)
             m = Model(np, X, labels, d)
+            m.sd = form[0]
+            if form[0] == "f4":
+                m.prec = PREC_F4
             if n == 1:
                 self.out.cls("create-single-sample")
             if -1 in labels:
@@ -473,6 +550,13 @@ class Machine:
         """shared bookkeeping of the three scaling operations on a non-empty set"""
         np = self.np
         m = e.m
+        kind = np.asarray(e.obj.get_data()[0]).dtype
+        if kind.kind in "iu":
+            self.out.cls("%s-on-integer-typed-samples" % name)
+            if not m.scaled:
+                self.out.cls("first-scaling-on-integer-typed-samples:%s" % name)
+        elif kind.itemsize < 8:
+            self.out.cls("%s-on-float32-samples" % name)
         ok, _ = self.call_must_work(name, call)
         if not ok:
             self.quarantine(e)
@@ -514,7 +598,17 @@ class Machine:
         if len(op) > 5 and op[5] and m.scaled and m.rng is not None and m.rng[0] == "fixed":
             lo, hi = m.rng[1], m.rng[2]         # repeat exactly the range last applied to this set / its parent
         same_range = m.scaled and m.rng is not None and m.rng[0] == "fixed" and (m.rng[1], m.rng[2]) == (lo, hi)
-        call = lambda: e.obj.scale_range((lo, hi), override_scaling=bool(override))
+        # the form of the range tuple: Python floats, Python ints as in the repository's own callers ((0, 1)), numpy scalars
+        rform = op[6] if len(op) > 6 else "float"
+        if rform == "int" and float(lo).is_integer() and float(hi).is_integer():
+            rng_arg = (int(lo), int(hi))
+            self.out.cls("range-form:int")
+        elif rform == "np":
+            rng_arg = (np.float64(lo), np.float64(hi))
+            self.out.cls("range-form:np.float64")
+        else:
+            rng_arg = (float(lo), float(hi))
+        call = lambda: e.obj.scale_range(rng_arg, override_scaling=bool(override))
         if m.n == 0:
             return self._empty_op(e, "scale_range", call)
         mn, mx = m.cur.min(axis=0), m.cur.max(axis=0)
@@ -525,7 +619,7 @@ class Machine:
         # BEFORE the call; the model's own extents are tested the same way).
         Xb, _ = obs_rows(np, e.obj)
         oext = (Xb.max(axis=0) - Xb.min(axis=0)) if Xb.shape == m.cur.shape else ext
-        small = 1e-6 * max(1.0, m.mag)
+        small = 1e-6 * m.prec * max(1.0, m.mag)
         if np.any((ext > 0) & (ext < small)) or np.any((oext > 0) & (oext < small)):
             self.out.cls("skipped-ill-conditioned-scale_range")
             return
@@ -546,7 +640,7 @@ class Machine:
         # clause: per-dimension minimum and maximum land on the range ends (tolerance 1e-9*max(1,|lo|,|hi|))
         X, _ = obs_rows(np, e.obj)
         if X.shape == new.shape:
-            t = 1e-9 * max(1.0, abs(lo), abs(hi))
+            t = 1e-9 * m.prec * max(1.0, abs(lo), abs(hi))
             omn, omx = X.min(axis=0), X.max(axis=0)
             if np.any(np.abs(omn - lo) > t):
                 self.bad("scale_range/minimum-not-on-lower-end", "range (%s,%s): per-dimension minima %s" % (lo, hi, omn))
@@ -556,26 +650,46 @@ class Machine:
                 self.bad("scale_range/constant-dimension-not-on-lower-end", "range (%s,%s): maxima %s" % (lo, hi, omx))
         self.check_all("scale_range", targets=[e])
 
-    def _vec(self, e, v):
-        """scalar stays a float; a list becomes an ndarray of the DataSet's dimension"""
+    def _vec(self, e, v, form="float"):
+        """The factor / shift argument in the drawn form.  Scalar: Python float | Python int | numpy.float64 | numpy.int64
+        (the integer forms only for whole numbers, as in the repository's own test: scale_factor(-2), shift_value(5));
+        a list becomes an ndarray of the DataSet's dimension: float64 | int64 (whole numbers only) | a strided view."""
         np = self.np
+        whole = all(float(x).is_integer() for x in (v if isinstance(v, list) else [v]))
         if isinstance(v, list):
             d = e.m.cur.shape[1]
             if e.m.n == 0 or d == 0:
                 return float(v[0])
             self.out.cls("vector-argument")
-            return np.array(v[:d], dtype=float)
+            a = np.array(v[:d], dtype=float)
+            if form in ("int", "npint") and whole:
+                self.out.cls("argument-form:int64-vector")
+                return a.astype(np.int64)
+            if form == "np":
+                self.out.cls("argument-form:strided-vector")
+                return np.repeat(a, 2)[::2]
+            return a
+        if form == "int" and whole:
+            self.out.cls("argument-form:int")
+            return int(v)
+        if form == "npint" and whole:
+            self.out.cls("argument-form:numpy.int64")
+            return np.int64(v)
+        if form == "np":
+            self.out.cls("argument-form:numpy.float64")
+            return np.float64(v)
         return float(v)
 
     def op_scale_factor(self, op):
         np = self.np
-        _, k, f, override = op
+        _, k, f, override = op[:4]
         e = self.pick(k)
         if e is None:
             return
         m = e.m
-        fv = self._vec(e, f)
-        call = lambda: e.obj.scale_factor(_cp(np, fv), override_scaling=bool(override))
+        arg = self._vec(e, f, op[4] if len(op) > 4 else "float")
+        fv = np.array(arg, dtype=float) if isinstance(arg, np.ndarray) else float(arg)      # the model's value
+        call = lambda: e.obj.scale_factor(_fresh(np, arg), override_scaling=bool(override))
         if m.n == 0:
             return self._empty_op(e, "scale_factor", call)
         new = m.cur * fv
@@ -591,13 +705,14 @@ class Machine:
 
     def op_shift_value(self, op):
         np = self.np
-        _, k, s, override = op
+        _, k, s, override = op[:4]
         e = self.pick(k)
         if e is None:
             return
         m = e.m
-        sv = self._vec(e, s)
-        call = lambda: e.obj.shift_value(_cp(np, sv), override_scaling=bool(override))
+        arg = self._vec(e, s, op[4] if len(op) > 4 else "float")
+        sv = np.array(arg, dtype=float) if isinstance(arg, np.ndarray) else float(arg)      # the model's value
+        call = lambda: e.obj.shift_value(_fresh(np, arg), override_scaling=bool(override))
         if m.n == 0:
             return self._empty_op(e, "shift_value", call)
         new = m.cur + sv
@@ -622,6 +737,8 @@ class Machine:
             self.quarantine(e)
             return
         self.out.cls("revert")
+        if m.sd != "f8":
+            self.out.cls("revert:samples-handed-in-as-%s" % m.sd)
         if m.moved:
             self.nt = True
             self.out.cls("revert-after-scale-and-move")
@@ -747,6 +864,12 @@ class Machine:
             return
         m = e.m
         n = m.n
+        # form of the index list: Python ints | numpy.int64 scalars (what the library's own callers build from np.arange / np.unique)
+        if len(op) > 5 and op[5] == "np":
+            self.out.cls("index-form:numpy.int64")
+            as_list = lambda ix: [np.int64(i) for i in ix]
+        else:
+            as_list = list
         idx = sorted(set(s % n for s in sel)) if n else []
         if len(op) > 4 and op[4] == "extreme" and n and sel:
             # choose among the rows that hold a per-dimension minimum or maximum (read from the object: an input decision)
@@ -760,7 +883,7 @@ class Machine:
             pos = (sel[0] if sel else 0) % (len(idx) + 1)
             idx = idx[:pos] + [badi] + idx[pos:]
             snap = self.snapshot(e)
-            _, exc = self.call_may_raise(lambda: e.obj.remove_samples(list(idx)))
+            _, exc = self.call_may_raise(lambda: e.obj.remove_samples(as_list(idx)))
             self.out.cls("remove-out-of-range:" + bad_kind)
             if exc is None:
                 self.bad("remove_samples/out-of-range-index-accepted", "indices %s on a DataSet of length %d did not raise" % (idx, n))
@@ -771,7 +894,7 @@ class Machine:
                 self.check_unmodified(e, snap, "rejected-remove_samples", "indices %s on length %d, %s raised" % (idx, n, type(exc).__name__))
             self.check_all("remove_samples-rejected", targets=[e])
             return
-        ok, removed = self.call_must_work("remove_samples", lambda: e.obj.remove_samples(list(idx)))
+        ok, removed = self.call_must_work("remove_samples", lambda: e.obj.remove_samples(as_list(idx)))
         if not ok:
             return self.quarantine(e)
         self.out.cls("remove-in-range:%s" % ("none" if not idx else ("all" if len(idx) == n else "some")))
@@ -809,7 +932,7 @@ class Machine:
             return "different:range"
         fa = np.broadcast_to(np.asarray(ma.factor, dtype=float), (d,)) if d else np.zeros(0)
         fb = np.broadcast_to(np.asarray(mb.factor, dtype=float), (d,)) if d else np.zeros(0)
-        if np.any(np.abs(fa - fb) > 1e-9 * np.abs(fb)):
+        if np.any(np.abs(fa - fb) > 1e-9 * max(ma.prec, mb.prec) * np.abs(fb)):
             return "different:factor"
         if ma.omin is not None and mb.omin is not None and (np.any(np.abs(ma.omin - mb.omin) > t) or np.any(np.abs(ma.omax - mb.omax) > t)):
             return "different:original-minmax"
@@ -919,6 +1042,8 @@ class Machine:
         m = Model(np, cur, np.concatenate([am.lab, bm.lab]), d)
         m.scaled, m.factor, m.omin, m.omax, m.rng = am.scaled, _cp(np, am.factor), _cp(np, am.omin), _cp(np, am.omax), am.rng
         m.mag = max(am.mag, bm.mag)
+        m.prec = max(am.prec, bm.prec)
+        m.sd = am.sd if am.n else bm.sd
         m.moved = am.scaled
         if am.scaled:
             oa = am.orig if am.orig is not None else am.cur
@@ -1157,6 +1282,11 @@ PERC = [0.0, 0.25, 0.4, 0.5, 0.75, 0.9, 0.999, 1.0, 1.5, -0.5]
 KINDS = (["create"] * 2 + ["scale_range"] * 5 + ["scale_factor"] * 3 + ["shift_value"] * 3 + ["revert"] * 5 + ["shuffle"] * 2 +
          ["mbf"] * 3 + ["split_labels"] * 2 + ["split_pieces"] * 4 + ["split_without_labels"] * 2 + ["remove_in"] * 3 +
          ["remove_out"] * 1 + ["concatenate"] * 4 + ["list_concatenate"] * 4 + ["copy"] * 3 + ["remove_labels"] * 2)
+S_DTYPE = ["f8"] * 8 + ["i8"] * 3 + ["i4"] * 2 + ["i2"] + ["f4"] * 2
+S_LAYOUT = ["C"] * 5 + ["F", "cols", "rows", "rev"]
+S_SHAPE = ["2d"] * 5 + ["flat", "flat", "3d-last", "3d-mid"]
+S_LABEL = ["i8"] * 4 + ["i4", "f8", "strided"]
+ARGFORM = ["float"] * 3 + ["int", "int", "npint", "np"]
 
 
 @st.composite
@@ -1166,14 +1296,20 @@ def _create(draw):
     if mode == "empty":
         return ["create", "empty", d, [], []]
     n = draw(st.sampled_from([4, 3, 5, 2, 6, 3, 8, 1, 4, 12, 2, 1, 0]))
+    # the form in which the arrays are handed to the constructor: [sample dtype, memory layout, shape, label form]
+    form = [draw(st.sampled_from(S_DTYPE)), draw(st.sampled_from(S_LAYOUT)), draw(st.sampled_from(S_SHAPE)),
+            draw(st.sampled_from(S_LABEL))]
+    if form[2] == "flat" and d != 1:
+        form[2] = "2d"
+    whole = form[0] in ("i8", "i4", "i2")                       # an integer table holds whole numbers: lattice steps 1 and 3
     lattice = draw(st.sampled_from(["quarter", "narrow", "tenth"]))
     if lattice == "quarter":
-        coord = st.integers(-8, 8).map(lambda k: k * 0.25)
+        coord = st.integers(-8, 8).map((lambda k: k * 1.0) if whole else (lambda k: k * 0.25))
     elif lattice == "narrow":                                   # many ties in the extremes
         off = draw(st.sampled_from([3.0, 3.0, 13.0, -2.0]))     # equal extents at different positions
         coord = st.integers(-1, 1).map(lambda k: k * 1.0 + off)
-    else:                                                       # not exactly representable
-        coord = st.integers(-6, 6).map(lambda k: k * 0.3)
+    else:                                                       # not exactly representable (unless an integer table)
+        coord = st.integers(-6, 6).map((lambda k: k * 3.0) if whole else (lambda k: k * 0.3))
     row = st.lists(coord, min_size=d, max_size=d)
     unique = draw(st.booleans()) or draw(st.booleans())
     npos = {"quarter": 17, "narrow": 3, "tenth": 13}[lattice] ** d
@@ -1182,7 +1318,7 @@ def _create(draw):
     else:
         rows = draw(st.lists(row, min_size=n, max_size=n))
     labels = draw(st.lists(st.sampled_from([-1, 0, 0, 1, 1, 2, 3]), min_size=n, max_size=n))
-    return ["create", mode, d, rows, labels]
+    return ["create", mode, d, rows, labels, form]
 
 
 def history_strategy(tier):
@@ -1202,7 +1338,8 @@ def history_strategy(tier):
             elif k == "scale_range":
                 lo, hi = draw(st.sampled_from(RANGES))
                 target = draw(idx)
-                ops.append([k, target, lo, hi, draw(st.sampled_from([0, 0, 1])), draw(st.sampled_from([0, 1]))])
+                ops.append([k, target, lo, hi, draw(st.sampled_from([0, 0, 1])), draw(st.sampled_from([0, 1])),
+                            draw(st.sampled_from(["float", "float", "int", "int", "np"]))])
                 # follow-up by construction: lose rows (preferably ones holding an extreme), then rescale to the SAME range
                 follow = draw(st.sampled_from(["", "", "", "remove", "remove", "split_pieces", "split_labels"]))
                 if follow == "remove":
@@ -1215,18 +1352,20 @@ def history_strategy(tier):
                     ops.append([follow, target])
                     ops.append([k, draw(st.sampled_from([-1, -2])), lo, hi, 0, 1])
             elif k == "scale_factor":
-                ops.append([k, draw(idx), draw(scal_or_vec(FACTORS)), draw(st.sampled_from([0, 0, 1]))])
+                ops.append([k, draw(idx), draw(scal_or_vec(FACTORS)), draw(st.sampled_from([0, 0, 1])), draw(st.sampled_from(ARGFORM))])
             elif k == "shift_value":
-                ops.append([k, draw(idx), draw(scal_or_vec(SHIFTS)), draw(st.sampled_from([0, 0, 1]))])
+                ops.append([k, draw(idx), draw(scal_or_vec(SHIFTS)), draw(st.sampled_from([0, 0, 1])), draw(st.sampled_from(ARGFORM))])
             elif k in ("revert", "shuffle", "mbf", "split_labels", "split_without_labels", "copy"):
                 ops.append([k, draw(idx)])
             elif k == "split_pieces":
                 ops.append([k, draw(idx), draw(st.sampled_from(PERC))])
             elif k == "remove_in":
-                ops.append(["remove_samples", draw(idx), draw(st.lists(st.integers(0, 23), min_size=draw(st.sampled_from([0, 1, 1, 1])), max_size=4)), ""])
+                ops.append(["remove_samples", draw(idx), draw(st.lists(st.integers(0, 23), min_size=draw(st.sampled_from([0, 1, 1, 1])), max_size=4)), "",
+                            "", draw(st.sampled_from(["py", "py", "np"]))])
             elif k == "remove_out":
                 ops.append(["remove_samples", draw(idx), draw(st.lists(st.integers(0, 23), min_size=0, max_size=3)),
-                            draw(st.sampled_from(["minus1", "len", "len+1", "len+5", "minus-len-1"]))])
+                            draw(st.sampled_from(["minus1", "len", "len+1", "len+5", "minus-len-1"])),
+                            "", draw(st.sampled_from(["py", "py", "np"]))])
             elif k == "concatenate":
                 ops.append([k, draw(idx), draw(idx)])
             elif k == "list_concatenate":
